@@ -633,10 +633,14 @@ class PathCtx:
         self.counter = {}
         self.opts = opts or {}
         self.solver = z3.Solver()
-        self.solver.set('timeout', int(self.opts.get('branch_timeout_ms', 250)))
+        self.solver.set('timeout', int(self.opts.get('branch_timeout_ms', 1000)))
         # a deterministic resource limit as well: some z3 procedures (array-theory internalisation of large lambda terms) do not
         # look at the wall-clock timeout and were seen to run for an hour; `unknown` counts as feasible
         self.solver.set('rlimit', int(self.opts.get('branch_rlimit', 4000000)))
+        # the runaway queries seen (one seeded tree: an hour and 34 GB; one run of C10 in a fresh sandbox: 12 GB) sit in the array
+        # theory's extensionality reasoning over lambda terms, where neither limit is looked at.  Feasibility does not need it: without
+        # extensionality the solver proves less `unsat`, i.e. fewer paths are pruned - the sound direction.
+        self.solver.set('array.extensional', False)
         self.dropped = []
         self.trace = []
         self.ghost = {}
